@@ -98,7 +98,7 @@ func TestC10R(t *testing.T) {
 		rec.Sample("race", map[string]any{"plan": p})
 		return nil
 	}
-	common.Drive(t, rec, func(rt *rapid.T) *Plan { return genPlanC10R(rt) }, run)
+	common.Drive(t, rec, func(rt *rapid.T) *Plan { return withEdgeChannels(rt, genPlanC10R(rt)) }, run)
 	completed = true
 }
 
@@ -124,7 +124,7 @@ func TestC03R(t *testing.T) {
 		rec.Sample("real", map[string]any{"plan": p})
 		return nil
 	}
-	common.Drive(t, rec, func(rt *rapid.T) *Plan { return genPlanC03R(rt) }, run)
+	common.Drive(t, rec, func(rt *rapid.T) *Plan { return withEdgeChannels(rt, genPlanC03R(rt)) }, run)
 	completed = true
 }
 
